@@ -585,6 +585,8 @@ class CallMixin:
                 r = self.fresh_of(st.get('returns', 'none'), 'stub_' + f.name)
             self.st.ghost['stub_result_' + f.name] = r
             self.st.ghost[ck] = r
+            for g, e_ in st.get('ghost_set', {}).items():
+                self.st.ghost[g] = self.ev_spec(e_, dict(self.st.frames[0].env))
             return r
         if isinstance(fn, ast.Lambda):
             env = dict(f.closure or {})
@@ -597,7 +599,7 @@ class CallMixin:
         allargs = ([f.bound] if f.bound is not None else []) + list(args)
         key = self.contract_key(f)
         c = self.contracts.get(key)
-        if c is not None and not c.get('inline') and not c.get('inline_in_callers'):
+        if c is not None and not c.get('inline') and not c.get('inline_in_callers') and key not in (self.cur_contract or {}).get('inline_callees', []):
             return self.modular_call(key, c, f, allargs, kw, node)
         if len(self.st.frames) > 60:
             raise Unsupported(f'inlining depth exceeded at {key} (recursive function needs a contract)')
